@@ -252,13 +252,18 @@ def make_cb(n):
 
 class Watchdog:
     """a call that is never answered (a lock taken twice by the same thread ...) ends after `seconds` with TimeoutError"""
+    FIRED = [0]
+
     def __init__(self, seconds=8):
-        self.seconds = seconds
+        # once a call was found unanswered in this process, later ones are given up on quickly (a deadlocking mocker would otherwise cost
+        # 8 s for every history that nests a call)
+        self.seconds = seconds if not Watchdog.FIRED[0] else 0.4
 
     def __enter__(self):
         import signal
 
         def fire(signum, frame):
+            Watchdog.FIRED[0] += 1
             raise TimeoutError('call not answered within %d s (deadlock)' % self.seconds)
         self.old = signal.signal(signal.SIGALRM, fire)
         signal.setitimer(signal.ITIMER_REAL, self.seconds)
